@@ -339,6 +339,61 @@ def install_rational(rec):
     wrap_static('div', lambda o: o[0] / o[1], 2)
     wrap_static('muldiv', lambda o: o[0] * o[1] / o[2], 3)
 
+    # min: the exact minimum (decided on integers by cross-multiplication, never through a float or Rational's own operators)
+    def _pair(x):
+        return (x.numerator, x.denominator)
+
+    def _less(x, y):
+        return x[0] * y[1] < y[0] * x[1]
+
+    orig_min = cls.__dict__['min']
+    saved['min'] = orig_min
+    fmin = orig_min.__func__
+
+    def wmin(c, vals):
+        vals = list(vals)
+        res = fmin(c, vals)
+        try:
+            if vals and all(isinstance(v, (int, Fraction)) and not isinstance(v, bool) for v in vals):
+                rec.ok('rational:min')
+                pr = _pair(res)
+                if pr[1] <= 0 or any(_less(_pair(v), pr) for v in vals) or not any(_pair(v)[0] * pr[1] == pr[0] * _pair(v)[1] for v in vals):
+                    rec.fail('rational:min:wrong', 'min of %s -> %s' % ([str(Fraction(v)) for v in vals][:4], Fraction(res)))
+        except Exception as e:      # pylint: disable=broad-except
+            rec.fail('rational:min:contract-error', repr(e))
+        return res
+    setattr(cls, 'min', classmethod(wmin))
+
+    cmps = {'__eq__': lambda a, b: a[0] * b[1] == b[0] * a[1], '__ne__': lambda a, b: a[0] * b[1] != b[0] * a[1],
+            '__lt__': lambda a, b: a[0] * b[1] < b[0] * a[1], '__le__': lambda a, b: a[0] * b[1] <= b[0] * a[1],
+            '__gt__': lambda a, b: a[0] * b[1] > b[0] * a[1], '__ge__': lambda a, b: a[0] * b[1] >= b[0] * a[1]}
+
+    def wrap_cmp(attr, want_of):
+        orig = cls.__dict__.get(attr)
+        saved[attr] = orig
+        if orig is None:
+            orig = getattr(cls, attr)
+
+        def w(self, other):
+            res = orig(self, other)
+            try:
+                if isinstance(other, (int, Fraction)) and not isinstance(other, bool) and res is not NotImplemented:
+                    rec.ok('rational:' + attr)
+                    want = want_of(_pair(self), _pair(other))
+                    if res is not want:
+                        rec.fail('rational:%s:wrong' % attr, '%s(%s, %s) -> %r' % (attr, Fraction(self), Fraction(other), res))
+            except Exception as e:      # pylint: disable=broad-except
+                rec.fail('rational:%s:contract-error' % attr, repr(e))
+            return res
+        w.__name__ = attr
+        setattr(cls, attr, w)
+
+    for attr, want_of in cmps.items():
+        wrap_cmp(attr, want_of)
+    if '__hash__' not in cls.__dict__:
+        saved['__hash__'] = None
+        cls.__hash__ = Fraction.__hash__        # defining __eq__ on the class would otherwise clear the hash
+
     def remove():
         for name, orig in saved.items():
             if orig is None:
